@@ -405,8 +405,9 @@ def _nolog(sp):
 
 # ------------------------------------------------------------------ composites
 
-def composite(shape, styles):
-    """call-graph shapes over <= 4 kept nodes; styles[i] in {datafn, keep0, keeplit, keeprt}"""
+def composite(shape, styles, bare=False):
+    """call-graph shapes over <= 4 kept nodes; styles[i] in {datafn, keep0, keeplit, keeprt}.
+    bare: every node but the last has no input of its own (no variable read, no mention of a non-accepted module)"""
     n = len(styles)
     names = [f"N{i}" for i in range(n)]
     edges = {"chain": [(i, i + 1) for i in range(n - 1)],
@@ -437,6 +438,18 @@ def composite(shape, styles):
     roots = [i for i in range(n) if not any(j == i for _, j in edges)]
     funcs.append({"name": "root", "module": "main", "params": [], "body": [call_item(i) for i in roots]})
     sid = f"C/{shape}/{'-'.join(styles)}"
+    if bare:
+        for f in funcs[:n - 1]:
+            f["nolog"] = True
+            f["body"] = [it for it in f["body"] if it["k"] != "read"]
+            if any("var" in a for it in f["body"] for a in it.get("args", [])):
+                # the run-time argument is a local value, not a tracked variable
+                f["body"] = [{"k": "const", "expr": "5"}] + [dict(it, args=[({"local": 0} if "var" in a else a) for a in it.get("args", [])]) for it in f["body"]]
+        used = {a["var"] for f in funcs for it in f["body"] for a in it.get("args", []) if "var" in a} | {f"V{n - 1}"}
+        vars_ = [v for v in vars_ if v["name"] in used]
+        eps = [e for e in eps if e["id"] in used][-2:] + [{"id": "tag:N0", "kind": "body_tag", "n": 2}]
+        return {"id": sid + "/bare", "key": f"composite_bare|{shape}|{'-'.join(sorted(set(styles)))}", "modules": ["main"], "vars": vars_, "funcs": funcs,
+                "entries": {"eval_root": {"kind": "eval", "fn": "root"}}, "eps": eps}
     return {"id": sid, "key": f"composite|{shape}|{'-'.join(sorted(set(styles)))}", "modules": ["main"], "vars": vars_, "funcs": funcs,
             "entries": {"eval_root": {"kind": "eval", "fn": "root"}}, "eps": eps}
 
@@ -454,6 +467,8 @@ def composites(level="quick"):
                 if shape == "flat" and n > 1:
                     continue
                 out.append(composite(shape, list(c)))
+                if shape == "chain" and n in (2, 3):
+                    out.append(composite(shape, list(c), bare=True))
     return out
 
 
